@@ -15,6 +15,9 @@ import time
 CONTRACT_PROPS = ["C15"]
 RULE = "all orderings (length <= 3 quick / 4 thorough) of 9 operations on the actor tree, async engine; fixed scenarios on the sync engine; non-trivial = at least one message was delivered to a child"
 BOUND = "actor tree depth 3, fan-out 2, operation sequences <= 3/4"
+# delayed sends fire after DELAY_MS; a `cancel` op arrives at most (len(ops) - 1) x ~15 ms after the `delayed` op even on a
+# loaded machine - well inside the delay - and the run waits longer than the delay before it reads the log
+DELAY_MS = 200
 OPS = ["to_id", "to_sys", "to_key", "to_fn", "to_gk", "gk_to_sink", "to_bad", "to_amb", "delayed", "cancel", "stop_w"]
 
 
@@ -54,7 +57,7 @@ def _machines(eng):
                "gk_to_sink": {"actions": [{"type": "xstate.sendTo", "params": {"to": "gksys", "event": {"type": "TOSINK"}}}]},
                "to_bad": {"actions": [send("nobody", 7)]},
                "to_amb": {"actions": [send("sink", 8)]},
-               "delayed": {"actions": [send("w1", 9, delay=30, id="d9"), send("w1", 10, delay=30, id="d10")]},
+               "delayed": {"actions": [send("w1", 9, delay=DELAY_MS, id="d9"), send("w1", 10, delay=DELAY_MS, id="d10")]},
                "cancel": {"actions": [{"type": "xstate.cancel", "params": {"sendId": "d9"}}]},
                "stop_w": {"actions": [{"type": "xstate.stopChild", "params": {"id": "w1"}}]},
                "xstate.error.actor.root:w1": {"actions": ["hit"]},
@@ -104,7 +107,7 @@ def run_case(case):
             it.send(op)
             time.sleep(0.05)
             steps.append((op, _tree(it), sorted(it.system.get_all())))
-        time.sleep(0.1)
+        time.sleep((DELAY_MS + 80) / 1000.0 if "delayed" in case["ops"] else 0.1)
         allk = list(it._actors.values())
         it.stop()
         time.sleep(0.05)
@@ -119,7 +122,7 @@ def run_case(case):
             await it.send(op)
             await asyncio.sleep(0.01)
             steps.append((op, _tree(it), sorted(it.system.get_all())))
-        await asyncio.sleep(0.08)
+        await asyncio.sleep((DELAY_MS + 80) / 1000.0 if "delayed" in case["ops"] else 0.08)
         kids = []
         def collect(x):
             for a in x._actors.values():
@@ -158,7 +161,7 @@ def post_check(case, res):
             exp += [("g1", 6)]
         if op == "gk_to_sink" and alive(i):
             exp += [("s1", None)]       # the grandchild addresses a sibling branch by systemId
-    # delayed sends: 9 unless cancelled before it fired (cancel comes at most 10-30 ms later: inside the delay), 10 always
+    # delayed sends: 9 unless cancelled before it fired (cancel comes well inside the delay, see DELAY_MS), 10 always
     if "delayed" in ops and (stopped_at is None or ops.index("delayed") < stopped_at):
         d = ops.index("delayed")
         cancelled = "cancel" in ops[d + 1:]
